@@ -144,8 +144,11 @@ def discharge_contracts(rep: Report, contracts, timeout_ms, jobs=None):
         if q.verdict != "unsat":
             o["verdict"] = "undischarged"
             failed.setdefault(q.ob_name, []).append(q)
+    failed_fns = {n.split("/")[0] for n in failed}
     for name, ok in canary_ok.items():
-        if not ok:
+        # an invariant that is not preserved makes the loop exit infeasible: only a function whose obligations are all
+        # discharged must also have a reachable return
+        if not ok and name not in failed_fns:
             rep.canary_fail.append(f"{name}: every return path is infeasible (vacuous contract or engine defect)")
     for name, v in presat.items():
         if v == "unsat":
